@@ -52,7 +52,7 @@ def run_case(case):
     from ..runmon import RunMonitor
 
     j = case.get("jitter")
-    m = RunMonitor(case["spec"], oracles={"C05"})
+    m = RunMonitor(case["spec"], oracles={"C05"}, prelude=C.want_prelude(case))
     if j:
         # deterministic target whose SECOND call (the repeat at x0) is shifted by diff
         P = m.P
